@@ -88,6 +88,11 @@ theorem accessors_noShared : ∀ a ∈ Skc.Generated.accessors, a.kind ≠ .memo
 example : Skc.Generated.accessors.length ≥ 40 ∧ (Skc.Generated.accessors.any fun a => a.kind == .memoThenCopy) = true ∧
     (Skc.Generated.accessors.any fun a => a.guarded) = true := by decide
 
+/-- No constructor (`DecisionMatrix(frame, objectives, weights)` with the caller's frame, base array and Index objects;
+`mkdm` with the caller's matrix, objectives, weights and label arrays) keeps an object of the caller: `construct`, which
+copies every argument, is the model of the constructors of the tree under test (same generated file). -/
+theorem constructor_copies : Skc.Generated.ctorShared = [] := by decide
+
 /-- Value semantics of `DecisionMatrix` / results for the generated table, whatever the accessors compute:
 no history over the public accessors changes what any of them reports. -/
 theorem value_semantics_generated (compute : Nat → List Arr → Arr) (args : List Arr) (ops : List Op) (k : Nat) :
@@ -121,11 +126,11 @@ example : (run T_fixed w0 [.read 7, .write 3 0 0]).get 3 = [0, 13] ∧ (run T_fi
 /-- a constructor that keeps the caller's array (mutant `np.array(weights, copy=False)`): the caller writes
 into its own array and the matrix reports something else; with the copying constructor it does not. -/
 theorem constructKeeping_breaks :
-    answer T_fixed (run T_fixed (constructKeeping 0 [[5, 6]]) [.write 0 0 0]) 7 ≠ answer T_fixed (constructKeeping 0 [[5, 6]]) 7 ∧
+    answer T_fixed (run T_fixed (constructKeeping [0] [[5, 6]]) [.write 0 0 0]) 7 ≠ answer T_fixed (constructKeeping [0] [[5, 6]]) 7 ∧
     answer T_fixed (run T_fixed (construct [[5, 6]]) [.write 0 0 0]) 7 = answer T_fixed (construct [[5, 6]]) 7 := by
   decide
 
 /-- the invariant is what fails for that mutant: a handed reference is a root -/
-example : ¬ Inv T_fixed (constructKeeping 0 [[5, 6]]) := fun h => h.sepInt 0 (by decide) (by decide)
+example : ¬ Inv T_fixed (constructKeeping [0] [[5, 6]]) := fun h => h.sepInt 0 (by decide) (by decide)
 
 end Skc.C02
